@@ -12,6 +12,7 @@ impl CostModel for DualConnector {
         &&& forall|i: int| 0 <= i < self.right_conn_id_map.len() ==> (#[trigger] self.right_conn_id_map[i] as int) < self.matrix_connector.spec_num_right()
         &&& 0 <= self.cost_m() && self.raw_scorer.costs_within(self.cost_m()) && 32768 + 8 * self.cost_m() <= i32::MAX as int
     }
+    open spec fn conn_shape(&self) -> bool { self.conn_wf() }
     open spec fn spec_num_left(&self) -> int { self.left_conn_id_map.len() as int }
     open spec fn spec_num_right(&self) -> int { self.right_conn_id_map.len() as int }
     open spec fn spec_cost(&self, right_id: u16, left_id: u16) -> int {
@@ -19,6 +20,8 @@ impl CostModel for DualConnector {
             + self.raw_scorer.row_sum(self.right_feat_ids[right_id as int], self.left_feat_ids[left_id as int], 8)
     }
     open spec fn spec_cost_bound(&self) -> int { 32768 + 8 * self.cost_m() }
+    proof fn lemma_shape_of_wf(&self) {}
+    proof fn lemma_wf_of_shape(&self) {}
     proof fn lemma_conn_wf(&self) {
         assert forall|r: u16, l: u16| (r as int) < self.spec_num_right() && (l as int) < self.spec_num_left() implies
             -self.spec_cost_bound() <= #[trigger] self.spec_cost(r, l) <= self.spec_cost_bound() by {
